@@ -1,5 +1,8 @@
 use crate::function::InnerFunctionManager;
 use crate::operator::{InfixOpManager, PostfixOpManager, PrefixOpManager};
+#[cfg(feature = "verif_hooks")]
+use crate::verif_hooks::sync::OnceCell;
+#[cfg(not(feature = "verif_hooks"))]
 use once_cell::sync::OnceCell;
 
 pub fn init() {
